@@ -51,7 +51,8 @@ TIERS = {
 }
 
 POOL = 6
-SEEDS = [tm.sha256(b"verif-cosigner-%d" % i) for i in range(POOL)]
+BIGPOOL = 16  # cosigners available to the large-quorum wallets of the enumerated families (random plans draw from the first POOL)
+SEEDS = [tm.sha256(b"verif-cosigner-%d" % i) for i in range(BIGPOOL)]
 _COS = {}
 _HDPRIV = {}
 _PRIVKEY = {}
@@ -175,6 +176,14 @@ class Setup:
             p.extra_map[b"\xfc\x05verif\x01"] = b"global-unknown"
             p.psbt_ins[0].extra_map[b"\xfc\x05verif\x02"] = b"in-unknown"
             p.psbt_outs[0].extra_map[b"\xfc\x05verif\x03"] = b""
+        if cr.get("both_utxo") and self.kind in ("p2wpkh", "p2sh_p2wpkh", "p2wsh", "p2sh_p2wsh"):
+            # as other creators do for segwit v0 inputs (BIP174 allows, and since the 2020 fee attack recommends, both records): every
+            # input also carries its full previous transaction; the coordinator loads those bytes with the library
+            pm = psbtmap.parse(p.serialize())
+            for k, im in enumerate(pm["inputs"]):
+                if not psbtmap.get(im, 0x00):
+                    im.insert(0, (b"\x00", tm.ser_tx(self.funding[self.inputs[k]["txid"]])))
+            p = PSBT.parse(BytesIO(psbtmap.serialize(pm)), network="mainnet")
         return p
 
     def create_with_helper(self, plan):
@@ -245,12 +254,13 @@ def ref_partial_sigs(pm, setup_like=None):
                             sc = tm.spk_p2pkh(spk[2:])
                         else:
                             sc = None
-                        d = rs.bip143(tx, idx, sc, amount, 1) if sc is not None else None
+                        d = rs.bip143(tx, idx, sc, amount, ht) if sc is not None else None
                     else:
                         sc = redeem if redeem is not None else spk
-                        d = rs.legacy(tx, idx, sc, 1)
-                    # the library verifies partial signatures with SIGHASH_ALL digests (check_sig_*), so judge only ALL-typed ones
-                    if d is not None and ht == 1:
+                        d = rs.legacy(tx, idx, sc, ht)
+                    # a partial signature is a signature for the hash type its last byte names (BIP174: "signature as would be
+                    # pushed to the stack"): judged over the digest of that type
+                    if d is not None:
                         rs_ = secp.parse_der_lax(sig[:-1])
                         pt = secp.parse_sec(pk)
                         if rs_ is not None and pt is not None:
@@ -275,6 +285,7 @@ class Node:
         self.signed = False
         self.online = True
         self.tainted = False  # accepted a message that was corrupted / foreign / from a tainted node: its state is garbage-in
+        self.received = []  # bytes of the untampered messages it accepted (what it could send again by mistake)
         self.inbox = []  # (parsed PSBT object handed to combine(), the bytes it was parsed from, clean?) - the objects are kept and reused
 
 
@@ -515,8 +526,10 @@ class Ceremony:
         raw = src.durable
         known = set(src.known)
         clean = not src.tainted
-        if st.get("stale") and len(src.history) >= 2:
-            raw = src.history[max(0, len(src.history) - 1 - st["stale"])]
+        older = src.history[:-1] + [r_ for r_ in src.received if r_ != src.durable]
+        if st.get("stale") and older:
+            # an older file is sent again: an earlier state of the node, or the message it had received before adding its own signature
+            raw = older[(len(older) - st["stale"]) % len(older)]
             tr.fault("stale")
             # what that old version contained is unknown to the bookkeeping: recompute from the bytes below
             known = None
@@ -550,6 +563,11 @@ class Ceremony:
                         kb = bytearray(k_)
                         kb[1 + cs["bit"] // 8 % (len(kb) - 1)] ^= 1 << (cs["bit"] % 8)
                         pmx["inputs"][ii][kk] = (bytes(kb), v_)
+                    elif cs.get("retag") is not None:
+                        # only the trailing hash-type byte changes: the same (r, s) now claims to sign another digest
+                        new_ht = [0x02, 0x03, 0x81, 0x82, 0x83, 0x00, 0x04, 0x41][cs["retag"] % 8]
+                        pmx["inputs"][ii][kk] = (k_, v_[:-1] + bytes([new_ht]))
+                        tr.probe("partial_sig_retagged")
                     else:
                         vb = bytearray(v_)
                         vb[cs["bit"] // 8 % len(vb)] ^= 1 << (cs["bit"] % 8)
@@ -627,6 +645,8 @@ class Ceremony:
             self.tainted = True
             dst.tainted = True
             tr.probe("unclean_message_accepted")
+        elif not dst.tainted:
+            dst.received.append(raw)
         if known is None:
             # stale version: derive which signers it contains from the bytes
             known = self.signers_in(pm) if pm is not None else set()
@@ -636,12 +656,24 @@ class Ceremony:
             will = self.review(dst, p, raw)
             if will:
                 try:
-                    if self.sign(dst, p):
+                    signed_ok = self.sign(dst, p)
+                    if signed_ok:
                         known = set(known) | {dst.signer_idx}
                         self.signed_by[dst.signer_idx] = True
                         tr.oracle("R4")
                         if self.misreviewed:
                             pass  # already reported by R2
+                    if clean and pm is not None and tm.txid(pm["tx"]) == tm.txid(self.setup.tx):
+                        # order independence: whatever signatures the PSBT already carried when it reached this signer, after an
+                        # honest signer (its key is in every input's script) has signed an untampered PSBT, its signature is in it
+                        tr.oracle("Q3_signed")
+                        try:
+                            after_sign = self.signers_in(psbtmap.parse(p.serialize()))
+                        except Exception:
+                            after_sign = None
+                        if after_sign is not None and dst.signer_idx not in after_sign:
+                            fail("C10", "Q3", "signer_signature_missing_after_sign", f"{dst.name} signed an untampered PSBT that already carried the signatures of signers {sorted(known - {dst.signer_idx})} (sign returned {bool(signed_ok)}), "
+                                 f"but its own signature is not in the PSBT afterwards: which signatures end up in the transaction depends on the order of signing")
                 except SimDeadlock:
                     raise
                 except Exception as e:
@@ -980,6 +1012,10 @@ class Ceremony:
             if ch_pos is None or s.n < 2:
                 return None
             m2 = s.m - 1 if s.m > 1 else s.m + 1
+            if t.get("m2"):
+                m2 = t["m2"]
+            if m2 == s.m or not (1 <= m2 <= s.n):
+                return None
             spk2, red2, ws2 = rw.spend_script(s.kind, m2, s.change["pks"])
             tx["outs"][ch_pos]["spk"] = spk2
             put_tx()
@@ -1316,7 +1352,7 @@ def generate(ch, tier, prop):
     kinds = ["p2pkh", "p2wpkh", "p2sh_p2wpkh", "p2sh", "p2sh", "p2wsh", "p2wsh", "p2sh_p2wsh", "p2sh_p2wsh"]
     plan = gen_spend(ch, tier, kinds, max_n)
     n = len(plan["wallet"]["cosigners"])
-    plan["creator"] = {"segwit_flag": ch.chance(0.3), "xpubs": ch.chance(0.25), "unknown": ch.chance(0.3), "helper": ch.chance(0.2)}
+    plan["creator"] = {"segwit_flag": ch.chance(0.3), "xpubs": ch.chance(0.25), "unknown": ch.chance(0.3), "helper": ch.chance(0.2), "both_utxo": ch.chance(0.3)}
     plan["sign_method"] = "hd" if ch.chance(0.25) else "keys"
     plan["encoding"] = ch.choice(["b64", "b64", "raw"])
     topo = ch.choice(["star", "chain", "gossip"]) if n > 1 else "star"
@@ -1341,6 +1377,8 @@ def generate(ch, tier, prop):
             if "corrupt" in kinds_f and st["src"] != "C" or ("corrupt" in kinds_f and ch.chance(0.3)):
                 if ch.chance(p * 1.5):
                     st["corrupt_sig"] = {"which": ch.randrange(0, 8), "bit": ch.randrange(0, 600), "in_key": ch.chance(0.2)}
+                    if ch.chance(0.25):
+                        st["corrupt_sig"]["retag"] = ch.randrange(8)
             if "corrupt" in kinds_f and st["src"] != "C" and ch.chance(p):
                 st["amount_lie"] = ch.choice([1, -1, 1000, -1000, 2**32, ch.randrange(1, 10**6)])
             if "crosstalk" in kinds_f and ch.chance(p * 0.5):
@@ -1414,6 +1452,22 @@ def enumerate_plans(tier, prop, seed):
                     plan["steps"] = [st]
                     plan["enum"] = "catalogue"
                     yield plan
+        # large quorums (two-digit thresholds): honest, and the change quorum lowered to 1, m-1, or raised to m+1
+        for kind, m, n in (("p2wsh", 10, 11), ("p2wsh", 11, 12), ("p2sh", 10, 11), ("p2wsh", 15, 15) if tier == "thorough" else ("p2wsh", 12, 12)):
+            for m2 in (None, 1, m - 1, m + 1):
+                inputs = [{"branch": 0, "index": r.randrange(50), "amount": 300000, "fund_seed": r.randrange(1 << 30), "vout": 0}]
+                plan = {"wallet": {"kind": kind, "m": m, "cosigners": r.sample(range(BIGPOOL), n)}, "inputs": inputs, "outputs": [{"amount": 100000, "spk": tm.spk_p2wpkh(bytes(range(20))).hex()}], "version": 2, "locktime": 0,
+                        "sequence": 0xFFFFFFFE, "change": {"index": r.randrange(50), "amount": 197000, "pos": r.randrange(2)}}
+                plan["creator"] = {"segwit_flag": False, "xpubs": False, "unknown": False, "helper": False}
+                plan["sign_method"] = "keys"
+                plan["topology"] = "review"
+                st = {"op": "send", "src": "C", "dst": "S0"}
+                if m2 is not None:
+                    st["tamper"] = {"kind": "changed_quorum", "a": 0, "m2": m2}
+                    plan["tamper"] = st["tamper"]
+                plan["steps"] = [st]
+                plan["enum"] = "large-quorum"
+                yield plan
         # the signer refreshes the PSBT from its own records before reading the summary: UTXO-related tampering and honest messages
         for kind in ("p2sh", "p2wsh"):
             for tk in [None, "utxo_amount", "both_utxo_records_disagree", "p2sh_input_as_witness_utxo", "other_prev_tx", "nonwitness_utxo_foreign_script"]:
@@ -1463,6 +1517,28 @@ def enumerate_plans(tier, prop, seed):
                     plan["steps"] = steps + [{"op": "finalize"}]
                     plan["enum"] = "corrupt-sig-slots"
                     yield plan
+    # re-tagged partial signatures (hash-type byte changed in flight): every wallet kind x every replacement type
+    for kind, m, n in (("p2pkh", 1, 1), ("p2wpkh", 1, 1), ("p2sh_p2wpkh", 1, 1), ("p2sh", 1, 2), ("p2wsh", 1, 2), ("p2sh_p2wsh", 1, 2)):
+        for rt in (range(8) if tier == "thorough" else (0, 3, 5)):
+            plan = base(kind, m, n)
+            plan["creator"] = {"segwit_flag": False, "xpubs": False, "unknown": False, "helper": False}
+            plan["sign_method"] = "keys"
+            plan["encoding"] = "raw"
+            plan["topology"] = "star"
+            plan["steps"] = [{"op": "send", "src": "C", "dst": "S0"}, {"op": "send", "src": "S0", "dst": "C", "corrupt_sig": {"which": 0, "bit": 0, "in_key": False, "retag": rt}}, {"op": "finalize"}]
+            plan["enum"] = "retag-partial-sig"
+            yield plan
+    # creators that attach both UTXO records to segwit inputs: fault-free star ceremony for every segwit wallet kind
+    for kind, m, n in (("p2wpkh", 1, 1), ("p2sh_p2wpkh", 1, 1), ("p2wsh", 2, 3), ("p2sh_p2wsh", 2, 2)):
+        plan = base(kind, m, n)
+        plan["creator"] = {"segwit_flag": False, "xpubs": False, "unknown": False, "helper": False, "both_utxo": True}
+        plan["sign_method"] = "keys"
+        plan["encoding"] = "raw"
+        plan["topology"] = "star"
+        plan["steps"] = [{"op": "send", "src": "C", "dst": f"S{j}"} for j in range(m)] + [{"op": "send", "src": f"S{j}", "dst": "C"} for j in range(m)] + [{"op": "finalize"}]
+        plan["expect_complete"] = True
+        plan["enum"] = "both-utxo-records"
+        yield plan
     # witness-UTXO amount lie on a signature-carrying reply, every segwit wallet kind, first and second reply
     for kind, m, n in (("p2wpkh", 1, 1), ("p2sh_p2wpkh", 1, 1), ("p2wsh", 2, 2), ("p2sh_p2wsh", 2, 2)):
         for which in range(n):
@@ -1507,7 +1583,7 @@ def shrink(plan):
                 del p["steps"][i][key]
                 yield p
     cr = plan.get("creator", {})
-    for key in ("segwit_flag", "xpubs", "unknown", "helper"):
+    for key in ("segwit_flag", "xpubs", "unknown", "helper", "both_utxo"):
         if cr.get(key):
             yield dict(plan, creator=dict(cr, **{key: False}))
     if len(plan["inputs"]) > 1:
